@@ -33,7 +33,7 @@ def case(draw):
     net = draw(gen_net.determined_network(noise=1, free=free))
     net["params"]["conf-pr"] = draw(st.sampled_from([0.95, 0.9, 0.99, 0.5, 0.999, 0.683, 0.05, 0.9995, 0.001]))
     net["params"]["sigma-apr"] = draw(st.sampled_from([0.5, 1, 2.5, 10, 10, 25, 50]))
-    return {"net": net, "alg": draw(st.sampled_from(ALGS)), "k": draw(st.sampled_from([0.5, 2.0, 3.0, 10.0]))}
+    return {"net": net, "alg": draw(st.sampled_from(ALGS)), "k": draw(st.sampled_from([0.5, 2.0, 3.0, 10.0, 1e-4, 1e-3, 1e3]))}
 
 
 def rel_close(a, b, rel, ab=0.0):
